@@ -178,7 +178,10 @@ def native_replay(scen, n, m, cex, config='default'):
     out = {}
     for prof, b in bins.items():
         rc, o, _ = sh([b] + args, timeout=120)
-        out[prof] = (rc, [l for l in o.split('\n') if l.startswith('E2')][:6])
+        lines = [l for l in o.split('\n') if l.startswith('E2')][:6]
+        if rc in (134, -6):
+            rc, lines = 1, ['E2VIOLATION the process aborted (a second panic while unwinding): ' + o.strip().split('\n')[-1][:120]]
+        out[prof] = (rc, lines)
     return out, ''
 
 
@@ -187,6 +190,21 @@ def selftest(gen, ns, log, config='default'):
     bins, err = replayer(config)
     if bins is None:
         return 0, ['replayer does not build: ' + err]
+    # the comparison is a pure function of the generated C, the runtime, the self-test driver and the native replayer
+    # binary: its outcome is cached under a hash of exactly those, so that the eight checks with an E2 part do not
+    # repeat it on an unchanged tree (the translation itself is regenerated on every run)
+    import hashlib
+    h = hashlib.sha256()
+    for f in [gen, os.path.join(M2C, 'selftest.c'), os.path.join(M2C, 'rt_models.h'), os.path.join(M2C, 'rt_base.h'), bins['dev']]:
+        h.update(open(f, 'rb').read())
+    h.update(repr(ns).encode())
+    cache = os.path.join(BUILD, 'selftest-%s.json' % h.hexdigest()[:24])
+    if os.path.exists(cache):
+        try:
+            c = json.load(open(cache))
+            return c['total'], c['problems']
+        except Exception:
+            pass
     total, problems = 0, []
     for n in ns:
         exe = os.path.join(BUILD, 'selftest_n%d' % n)
@@ -205,6 +223,10 @@ def selftest(gen, ns, log, config='default'):
             d = [(a, b) for a, b in zip(cl, rl) if a != b][:2]
             problems.append('encoding disagrees with the real crate at N=%d on %d of %d cases, e.g. C: %s | native: %s' % (
                 n, sum(1 for a, b in zip(cl, rl) if a != b) + abs(len(cl) - len(rl)), len(rl), d[0][0] if d else '?', d[0][1] if d else '?'))
+    try:
+        json.dump(dict(total=total, problems=problems), open(cache, 'w'))
+    except Exception:
+        pass
     return total, problems
 
 
